@@ -32,14 +32,12 @@ Proof. reflexivity. Qed.
 
 Lemma wn_comparison c cs rs g a : walk_node c "comparison" cs rs g a =
   if Nat.ltb (List.length cs) 3 || Nat.even (List.length cs) then Err
-  else if reject_chains c && Nat.ltb 3 (List.length cs) then Err
+  else if Nat.ltb 3 (List.length cs) then Err
   else chain_fold c (nth 0 rs Err) (map tok_text (odds cs)) (match evens rs with [] => [] | _ :: t => t end).
 Proof. unfold walk_node. cbn -[Nat.ltb Nat.even all_some all_same all_ok chain_fold odds evens nth].
   destruct (Nat.ltb (List.length cs) 3 || Nat.even (List.length cs)); [reflexivity|].
-  destruct (reject_chains c); cbn -[Nat.ltb all_some all_same all_ok chain_fold odds evens nth].
-  - destruct (Nat.ltb 3 (List.length cs)); [reflexivity|].
-    destruct (all_some (map tok_text (odds cs))) as [names|]; [|reflexivity]. destruct (all_same names); reflexivity.
-  - destruct (all_some (map tok_text (odds cs))) as [names|]; [|reflexivity]. destruct (all_same names); reflexivity. Qed.
+  destruct (Nat.ltb 3 (List.length cs)); [reflexivity|].
+  destruct (all_some (map tok_text (odds cs))) as [names|]; [|reflexivity]. destruct (all_same names); reflexivity. Qed.
 
 Lemma wn_arith c d cs rs g a : In d ["arith_expr"; "term"] -> walk_node c d cs rs g a =
   if Nat.ltb (List.length cs) 3 || Nat.even (List.length cs) then Err
@@ -48,8 +46,7 @@ Lemma wn_arith c d cs rs g a : In d ["arith_expr"; "term"] -> walk_node c d cs r
        | None => chain_fold c (nth 0 rs Err) (map tok_text (odds cs)) (match evens rs with [] => [] | _ :: t => t end)
        end.
 Proof. simpl. intros [<-|[<-|[]]]; unfold walk_node, kopsel; cbn -[Nat.ltb Nat.even all_some all_same all_ok chain_fold odds evens nth mem_str];
-  (destruct (Nat.ltb (List.length cs) 3 || Nat.even (List.length cs)); [reflexivity|]);
-  (destruct (reject_chains c); cbn -[Nat.ltb all_some all_same all_ok chain_fold odds evens nth mem_str]; reflexivity). Qed.
+  (destruct (Nat.ltb (List.length cs) 3 || Nat.even (List.length cs)); reflexivity). Qed.
 
 Lemma wn_factor c cs rs g a : walk_node c "factor" cs rs g a =
   match cs, rs with
